@@ -306,6 +306,13 @@ pub fn with_rng_observer<R>(f: impl FnOnce() -> R) -> (R, Vec<Vec<u8>>) {
     with_rng_script(Vec::new(), f)
 }
 
+/// 2026-06-15T12:34:56.123456789Z: the instant the default claims see unless a check decides otherwise
+pub fn default_t0() -> time::OffsetDateTime {
+    time::OffsetDateTime::from_unix_timestamp_nanos(1_781_526_896_123_456_789).unwrap()
+}
+pub fn freeze_default_clock() {
+    set_clock(Some(default_t0()));
+}
 pub fn set_clock(t: Option<time::OffsetDateTime>) {
     rusty_paseto::verif_hooks::set_now(t);
 }
@@ -1124,8 +1131,10 @@ pub fn parse_history(p: Proto, layer: Layer, default_parser: bool, keys: &[Vec<u
 /// next to `extra` claims; local nonces come from `seed` through the H1 script.
 pub fn issue(p: Proto, layer: Layer, key: &[u8], seed: Option<&[u8]>, msg: &str, extra: &[ClaimSpec], footer: Option<&str>, assertion: Option<&str>) -> Out<String> {
     if layer == Layer::Core {
-        let Some(seed) = seed else { return Out::Err(ErrClass::Harness("the core layer needs an explicit nonce".into())) };
-        return core_issue(p, key, seed, msg, footer, assertion);
+        if p.is_local() && seed.is_none() {
+            return Out::Err(ErrClass::Harness("the core layer needs an explicit nonce".into()));
+        }
+        return core_issue(p, key, seed.unwrap_or(&[]), msg, footer, assertion);
     }
     let mut ops: Vec<BOp> = vec![BOp::Claim(ClaimSpec::auto("data", Value::String(msg.to_string())))];
     for c in extra {
